@@ -77,8 +77,10 @@ func VerifC01WriteSequence() {
 		if hasKey {
 			// a few keys case-split (the key-signature event forks over crd's key table anyway);
 			// every key's pitches are decided by VerifC01Pitch
-			ki := vf.NondetIntRange("key", 0, 3)
-			l, a, m := []int{2, 3, 0, 5}[ki], []int{-1, 1, -1, 0}[ki], []bool{false, true, false, true}[ki]
+			// — among them two enharmonic pairs (Cb/B, Ebm/D#m): same tonic pitch and mode,
+			// different signatures, so anything remembered per pitch-and-mode is put to the test
+			ki := vf.NondetIntRange("key", 0, vf.Ite(small, 4, 6))
+			l, a, m := []int{2, 3, 0, 5, 6, 2, 1}[ki], []int{-1, 1, -1, 0, 0, -1, 1}[ki], []bool{false, true, false, true, false, true, true}[ki]
 			k := op.Key{Name: crdx.Name(l), Accidental: crdx.Acc(a), Minor: m}
 			in.Key = &k
 			cl, ca, cm = l, a, m
@@ -155,6 +157,7 @@ func VerifC01WriteSequence() {
 			case vcKey:
 				sig := spec.Signature(e.kl, e.ka, e.kminor)
 				vf.Assert("key-signature-of-the-key-set", c.isMajor == !e.kminor && int(c.cnt) == vf.Ite(sig < 0, -sig, sig))
+				vf.Assert("key-signature-flat-or-sharp-as-the-key-set", verifOr(sig == 0, c.isFlat == (sig < 0)))
 				forceKeyL, forceKeyA, forceKeyM = e.kl, e.ka, e.kminor
 			}
 			continue
